@@ -15,7 +15,7 @@ func init() {
 
 var yamlOther = []string{"---", "meta:", "  author: \"x\"", "  enabled: true", "  name: 920100.yaml", "tests:", "    desc: \"plain\"",
 	"    stages:", "      - input:", "          uri: \"/get?x=test\"", "        output:", "          log:", "            expect_ids: [920100]",
-	"# comment", "    desc: 'caf\xc3\xa9 \xff'", "  x: a:b", "    test_idx: 3", "    mytest_title : 4", "  - test_id", "    test_title"}
+	"# comment", "    data: |  ", "      payload with trailing blanks \t", "    desc: 'caf\xc3\xa9 \xff'", "  x: a:b", "    test_idx: 3", "    mytest_title : 4", "  - test_id", "    test_title"}
 
 func genKeyLine(r *Rng, key string, strict bool) string {
 	indent := r.Pick([]string{"  - ", "    ", "  -   ", "", "\t", "- "})
